@@ -277,9 +277,9 @@ def jdesc(joint, jname, d2):
     return dict(full=True, axes=[], pairs=[[int(a) + 1, int(b) + 1] for a, b in joint.projection_pairs], fd=False, d2=0)
 
 
-def record(ctx, rid, rng, system, joint, subs, B_r, A_K, jname, d2, where):
+def record(ctx, rid, rng, system, joint, subs, B_r, A_K, jname, d2, where, given=None):
     t = max(s.t_eval for s in subs)
-    st = [s.sample(rng) for s in subs]
+    st = given if given is not None else [s.sample(rng) for s in subs]
     q = np.concatenate([x[0] for x in st]); u = np.concatenate([x[1] for x in st]); ud = np.concatenate([x[2] for x in st])
     nq = [len(x[0]) for x in st]; nu = [len(x[1]) for x in st]
     K = [kinematics(subs[i].obj, t, st[i][0], st[i][1], st[i][2], subs[i].xi, B_r[i], A_K[i]) for i in range(2)]
@@ -356,9 +356,12 @@ def run(ctx):
     counts = {}
     ninit = 0
     skipped = 0
-    for jname, axis in joint_specs():
-        pairings = list(PAIRINGS) + (PM_PAIRINGS if jname in ("Spherical", "FixedDistance") else []) + ROD_PAIRINGS
-        for kinds in pairings:
+    shared = {}
+    # pairing outermost: consecutive joints (all types and axes) act on subsystems of the same kinds and are evaluated at one shared state
+    for kinds in list(PAIRINGS) + PM_PAIRINGS + ROD_PAIRINGS:
+        for jname, axis in joint_specs():
+            if kinds in PM_PAIRINGS and jname not in ("Spherical", "FixedDistance"):
+                continue
             for pl in range(nplace):
                 where = dict(joint=jname, axis=axis, subsystems=list(kinds), placement=pl)
                 try:
@@ -382,10 +385,18 @@ def run(ctx):
                         ctx.violation(f"{jname}:defined-config", f"{where}: g(t0, q0) = {g0.tolist()} in the configuration the joint was defined in", where)
                 except Exception as ex:
                     ctx.violation(f"{jname}:{'-'.join(kinds)}:raises", f"g(t0, q0) of {where} raised {type(ex).__name__}: {ex}", where)
-                for si in range(nstates):
+                # pairings without prescribed motion are evaluated at the SAME (t, q, u) for every joint type and axis, one joint after the
+                # other (state that leaks between joint objects, e.g. a cache shared by a class, shows there)
+                plain = all(k in ("origin", "rigid", "point") for k in kinds)
+                for si in ([-1] if plain else []) + list(range(nstates)) + ([nstates] if plain else []):
                     rid = len(records) + 1
+                    given = None
+                    if plain and si in (-1, nstates):      # first and last evaluation of every joint: the shared state
+                        if kinds not in shared:
+                            shared[kinds] = [s.sample(rng) for s in subs]
+                        given = [tuple(np.array(a, dtype=float) for a in x) for x in shared[kinds]]
                     try:
-                        rec, w = record(ctx, rid, rng, system, joint, subs, B_r, A_K, jname, d2, where)
+                        rec, w = record(ctx, rid, rng, system, joint, subs, B_r, A_K, jname, d2, where, given=given)
                     except TooBig:
                         skipped += 1
                         continue
